@@ -187,6 +187,11 @@ def binding_b(ctx, proto, drv, nhist=60, nmsgs=6, want_json=False):
     for h in range(nhist):
         exp = exps[h % len(exps)]
         jobs.append({"msgs": [{"exp": exp, "buf": m} for m in g.history(nmsgs)], "want_json": want_json})
+    # every element of the information model, in every run: at its own size, reduced and oversized
+    for variant in ("own", "reduced", "oversized"):
+        ph = g.per_element(variant)
+        for i in range(0, len(ph), 2):
+            jobs.append({"msgs": [{"exp": exps[0], "buf": m} for m in ph[i:i + 2]], "want_json": want_json})
     res = flowjobs.run_jobs(ctx, drv, P[proto]["jobs"], jobs, env={"VERIF_ELEMENTS_DIR": d}, tag="b_" + proto, timeout=3000)
     rows, idx = [], []
     for ji, (job, r) in enumerate(zip(jobs, res)):
